@@ -29,9 +29,9 @@ type c11Event struct {
 }
 
 type c11Log struct {
-	mu     sync.Mutex
-	events []c11Event
-	r      *fw.Rand
+	mu      sync.Mutex
+	events  []c11Event
+	r       *fw.Rand
 	perturb bool
 }
 
